@@ -167,19 +167,23 @@ def canon_K(p):
     if isinstance(p, (int, Fraction)):
         return Fraction(p)
     if isinstance(p, float):
-        return 'float:%r' % p
+        return p
     if isinstance(p, sympy.Basic):
         syms = sorted(p.free_symbols, key=str)
         if syms:
             p = p.subs({s: sympy.Rational(int(str(s)[1:])) for s in syms})
         if p.is_Rational:
             return Fraction(int(p.p), int(p.q))
+        if p.is_Float:
+            return float(p)
         return 'sympy:%s' % p
     return 'other:%r' % (p,)
 
 
 def show_K(p):
     c = canon_K(p)
+    if isinstance(c, float):
+        return 'float:%r' % c
     return 'None' if c is None else (show_rat(c) if isinstance(c, Fraction) else c)
 
 
@@ -210,7 +214,7 @@ def own_eval(t, kmode):
             q = Fraction(*K) if isinstance(K, list) else Fraction(K)
             K = {int(q): 1} if kmode == 'sym' else q
         rk, pk = [x for x, _ in e['reac']], [x for x, _ in e['prod']]
-        netted = not (set(rk) & set(pk)) and all(v > 0 for _, v in e['reac'] + e['prod'])
+        netted = not (set(rk) & set(pk)) and all(v > 0 for _, v in e['reac'] + e['prod']) and not (e['ireac'] or e['iprod'])
         positive = all(v > 0 for _, v in e['reac'] + e['prod'])
         return vec, K, netted, positive
     if k in ('scale', 'neg'):
@@ -301,7 +305,7 @@ class C11(Property):
     props_module = 'ChemModel.Props.C11'
     build_modules = ('ChemModel.Model.Equilibria', 'ChemModel.Basic.Proto')
     driver = 'ChemModel/Driver/C11.lean'
-    n_quick, n_thorough = 1400, 24000
+    n_quick, n_thorough = 3000, 60000
     float_tol = 1e-12
     rule = ('random expression trees (scale by -4..5 incl. 0, negate, add, subtract; int and sympy.Integer multipliers; n*e and e*n) over random '
             'equilibria on a pool of 3-6 species (shared species on opposite sides, species on both sides of one operand, coefficient 1, '
@@ -343,7 +347,7 @@ class C11(Property):
             cases.append({'op': 'primefactors', 'n': m, 'negate': m % 2 == 1})
         step = 1 if tier == 'thorough' else 3
         for p in range(-20, 21, 1):
-            for q in range(-20, 21, step):
+            for q in sorted(set(range(-20, 21, step)) | {0, -1, 1}):
                 cases.append({'op': 'intdiv', 'p': p, 'q': q})
         k = max(0, n - 600)
         depth = 3 if tier == 'quick' else 5
@@ -400,7 +404,7 @@ class C11(Property):
                 which = rng.random()
                 kf = _rat(rng, 'frac') if which < 0.45 or which > 0.95 else None
                 kb = _rat(rng, 'frac') if 0.45 <= which < 0.9 or which > 0.95 else None
-                c0 = None if rng.random() < 0.4 else rat_json(Fraction(rng.randint(1, 9), rng.randint(1, 9)) * (0 if rng.random() < 0.03 else 1))
+                c0 = None if rng.random() < 0.4 else rat_json(Fraction(rng.randint(1, 9), rng.randint(1, 9)) * (0 if (rng.random() < 0.03 and km == 'frac') else 1))
                 cases.append({'op': 'as_reactions', 'kmode': km, 'eq': e, 'kf': kf, 'kb': kb, 'units_c0': c0})
         return cases
 
@@ -552,6 +556,8 @@ class C11(Property):
                 return 'eliminate returned %r for coefficients %r: not two non-zero integers' % (m, v)
             if int(m[0]) * v[0] + int(m[1]) * v[1] != 0:
                 return 'eliminate returned %r for coefficients %r: %d*%d + %d*%d != 0' % (m, v, m[0], v[0], m[1], v[1])
+            if max(abs(int(x)) for x in m) > 40:      # the common multiple is not the least one: K ** m can be astronomically large
+                objs = [build_eq(dict(e, K=None), km) for e in eqs]
             try:
                 r = m[0] * objs[0] + m[1] * objs[1]
             except ValueError:
@@ -590,12 +596,12 @@ class C11(Property):
                 return 'as_reactions: forward/backward stoichiometries are not the two directions of the equilibrium'
             kf, kb = f.param, b.param
             want = K * c0 ** d
-            lhs = kf if isinstance(kf, float) else canon_K(kf)
-            rhs = kb if isinstance(kb, float) else canon_K(kb)
+            lhs = canon_K(kf)
+            rhs = canon_K(kb)
             if isinstance(lhs, str) or isinstance(rhs, str):
                 return 'as_reactions: rate constants %r, %r are not numbers' % (kf, kb)
             if isinstance(lhs, float) or isinstance(rhs, float):
-                if not close(float(lhs), float(rhs * want), 1e-12):
+                if not close(float(lhs), float(Fraction(rhs) * want), 1e-12):
                     return 'as_reactions: kf = %r, kb*K*c0^(nb-nf) = %r' % (lhs, float(rhs * want))
             elif lhs != rhs * want:
                 return 'as_reactions: kf = %s but kb*K*c0^(nb-nf) = %s' % (lhs, rhs * want)
